@@ -118,11 +118,39 @@ def _wipe_workdir():
     SC.ev("wipe")
 
 
+def _wipe_partial():
+    """partial loss: every secondary (.idx) file below the working directory disappears, the primary files stay"""
+    wd = SC.workdir
+    if wd and os.path.isdir(wd):
+        for root, _dirs, fs in os.walk(wd):
+            for f in fs:
+                if f.endswith(".idx"):
+                    try:
+                        os.remove(os.path.join(root, f))
+                    except OSError:
+                        pass
+    SC.ev("wipe-partial")
+
+
+def _lose(kind):
+    if kind == "failstop":
+        _wipe_workdir()
+    elif kind == "partial":
+        _wipe_partial()
+
+
 # ------------------------------------------------------------------------------------------------
 # token / step / command classes (loadable by name from the database by recovery workflows)
 class VFileToken(FileToken):
     async def get_paths(self, context):
         return [self.value]
+
+
+class VFileToken2(FileToken):
+    """a file with a secondary file (value = "<primary>|<secondary>"): available iff BOTH paths have a live copy"""
+
+    async def get_paths(self, context):
+        return [p for p in self.value.split("|") if p]
 
 
 async def _register_path(context, location, path, relpath):
@@ -142,6 +170,11 @@ async def build_token(job, value, context, recoverable):
     tag = get_tag(job.inputs.values())
     if isinstance(value, list):
         return ListToken(tag=tag, value=[await build_token(job, v, context, recoverable) for v in value])
+    if isinstance(value, dict) and value.get("class") == "File2":
+        locations = context.scheduler.get_locations(job.name)
+        for pth in (value["path"], value["idx"]):
+            await _register_path(context, next(iter(locations)), pth, os.path.basename(pth))
+        return VFileToken2(tag=tag, value=value["path"] + "|" + value["idx"], recoverable=recoverable)
     if isinstance(value, dict) and value.get("class") == "File":
         locations = context.scheduler.get_locations(job.name)
         path = value["path"]
@@ -199,6 +232,13 @@ class VOutputProcessor(DefaultCommandOutputProcessor):
             await _register_path(context, next(iter(locations)), value,
                                  os.path.relpath(value, job.output_directory))
             return VFileToken(tag=tag, value=value, recoverable=recoverable)
+        if self.value_type == "file2":
+            locations = context.scheduler.get_locations(job.name)
+            for v in value:
+                if not await StreamFlowPath(v, context=context, location=locations[0]).exists():
+                    raise WorkflowExecutionException(f"Job {job.name} output does not exist: File {v}")
+                await _register_path(context, next(iter(locations)), v, os.path.relpath(v, job.output_directory))
+            return VFileToken2(tag=tag, value="|".join(value), recoverable=recoverable)
         if self.value_type == "filelist":
             toks = []
             locations = context.scheduler.get_locations(job.name)
@@ -216,6 +256,18 @@ class VOutputProcessor(DefaultCommandOutputProcessor):
 def _flat(v):
     """token value -> plain python (file tokens -> their text content)"""
     if isinstance(v, Token):
+        if isinstance(v, VFileToken2):
+            main, idx = v.value.split("|")
+            with open(main) as f:
+                content = f.read()
+            # the secondary file is optional for the consumer (like a CWL secondaryFile marked optional): without it the
+            # job still runs, but its result differs
+            if not idx or not os.path.exists(idx):
+                return content + "~noidx"
+            with open(idx) as f:
+                if f.read() != "idx:" + content:
+                    return content + "~badidx"
+            return content
         if isinstance(v, FileToken):
             with open(v.value) as f:
                 return f.read()
@@ -275,14 +327,21 @@ class VCommand(Command):
             except asyncio.TimeoutError:
                 SC.ev("hold-timeout")
         if kind is not None:
-            if kind == "failstop":
-                _wipe_workdir()
+            _lose(kind)
             out = CommandOutput("Injected failure", Status.FAILED)
         else:
             try:
                 vals = [_flat(job.inputs[k]) for k in sorted(job.inputs)]
                 res = apply_op(self.op, self.label, vals)
-                if self.out in ("file", "filelist"):
+                if self.out == "file2":
+                    os.makedirs(job.output_directory, exist_ok=True)
+                    p = os.path.join(job.output_directory, f"out{self.step.name.replace('/', '_')}-{tag}.txt")
+                    with open(p, "w") as f:
+                        f.write(res)
+                    with open(p + ".idx", "w") as f:
+                        f.write("idx:" + res)
+                    res = [p, p + ".idx"]
+                elif self.out in ("file", "filelist"):
                     os.makedirs(job.output_directory, exist_ok=True)
                     items = res if self.out == "filelist" else [res]
                     paths = []
@@ -355,8 +414,7 @@ class VScheduleStep(ScheduleStep):
         kind, n = SC.should_fail(self.job_prefix, get_tag(job.inputs.values()), "schedule")
         SC.ev("schedule", job.name, n, "fail" if kind else "ok")
         if kind is not None:
-            if kind == "failstop":
-                _wipe_workdir()
+            _lose(kind)
             raise WorkflowExecutionException(f"Injected error into {self.name} step")
         await super()._set_job_directories(connector, locations, job)
 
@@ -392,6 +450,14 @@ class VTransferStep(TransferStep):
     async def _xfer(self, job, token):
         if isinstance(token, ListToken):
             return token.update(value=[await self._xfer(job, t) for t in token.value])
+        if isinstance(token, VFileToken2):
+            main, idx = token.value.split("|")
+            new_main = await self._transfer_path(job, main)
+            # an optional secondary file that no longer exists is simply not staged
+            new_idx = await self._transfer_path(job, idx) if idx and os.path.exists(idx) else ""
+            t = token.update(new_main + "|" + new_idx)
+            t.recoverable = False
+            return t
         if isinstance(token, FileToken):
             t = token.update(await self._transfer_path(job, token.value))
             t.recoverable = False
@@ -406,8 +472,7 @@ class VTransferStep(TransferStep):
             kind, n = SC.should_fail(step_name, get_tag(job.inputs.values()), "transfer")
             SC.ev("transfer", job.name, n, "fail" if kind else "ok")
             if kind is not None:
-                if kind == "failstop":
-                    _wipe_workdir()
+                _lose(kind)
                 raise WorkflowExecutionException(f"Injected error into {self.name} step")
             h = SC.hold
             if h is not None and h["point"] == "transfer" and job.name == h["job"] and n == h["attempt"]:
@@ -620,10 +685,11 @@ class Builder:
 
 def build_shape(b: Builder, shape, seedfile):
     kind, ftype = shape["kind"], shape["type"]
-    fil = ftype == "file"
-    one = "file" if fil else "primitive"
+    fil = ftype in ("file", "file2")
+    one = ftype if fil else "primitive"
     cat = "cat" if fil else "inc"
-    init = {"class": "File", "path": seedfile} if fil else 3
+    init = ({"class": "File2", "path": seedfile, "idx": seedfile + ".idx"} if ftype == "file2"
+            else {"class": "File", "path": seedfile} if fil else 3)
     port = b.injector("in", init)
     if kind == "pipeline":
         for i in range(shape["n"]):
@@ -689,6 +755,8 @@ async def _run(case, hooks=None):
     seedfile = os.path.join(base, "seed.txt")
     with open(seedfile, "w") as f:
         f.write("seed")
+    with open(seedfile + ".idx", "w") as f:
+        f.write("idx:seed")
     conf = {"database": {"type": "default", "config": {"connection": ":memory:"}}, "path": base}
     if case.get("manager", "rollback") == "rollback":
         conf["failureManager"] = {"type": "default", "config": {"max_retries": case.get("limit"), "retry_delay": 0}}
